@@ -34,7 +34,7 @@ inductive Tree (α : Type) where
   | leaf (pred depth : Nat)
   | node (feat : Nat) (split dec : α) (pred depth : Nat) (l r : Tree α)
   | half (feat : Nat) (split dec : α) (pred depth : Nat) (isLeft : Bool) (c : Tree α)
-  deriving Repr, BEq, Inhabited
+  deriving Repr, BEq, DecidableEq, Inhabited
 
 structure Params (α β : Type) where
   entropy : Bool
@@ -190,6 +190,16 @@ def leftMask (D : Data α β) (mask : List Bool) (f : Nat) (s : α) : List Bool 
 def rightMask (D : Data α β) (mask : List Bool) (f : Nat) (s : α) : List Bool :=
   (mask.zipIdx).map fun (m, i) => m && !decide (D.x i f ≤ s)
 
+/-- the early return of `fit`: too few rows (`nsamples as f32 < min_weight_split`) or depth reached -/
+def stopGuard (P : Params α β) (nrows depth : Nat) : Bool :=
+  decide ((nrows : β) < P.minSplit) ||
+    (match P.maxDepth with | some d => decide (d ≤ depth) | none => false)
+
+/-- `impurity_decrease` of the best split (`0` when there is none) -/
+def decOf (P : Params α β) (pf : List β) : Option (Cand α β) → α
+  | some b => P.cast (impurity P pf) - P.cast b.score
+  | none => 0
+
 /-- `TreeNode::fit`.  `none` = the call does not return (an `assert!`/`unwrap` fires, or the
 recursion does not terminate: fuel exhausted).  `ord` is the hash map's iteration order. -/
 def fitNode (P : Params α β) (D : Data α β) (ord : List Nat → List Nat)
@@ -201,17 +211,13 @@ def fitNode (P : Params α β) (D : Data α β) (ord : List Nat → List Nat)
     match modalOf (classWeight D rows) (ord (presentClasses D rows)) with
     | none => none
     | some pred =>
-      if decide ((rows.length : β) < P.minSplit) ||
-          (match P.maxDepth with | some d => decide (d ≤ depth) | none => false)
-      then some (.leaf pred depth)
+      if stopGuard P rows.length depth then some (.leaf pred depth)
       else
         let cands := candidates P D sorted mask pf
         if cands.any (fun c => !c.ok) then none
         else
           let best := pickBest cands
-          let dec : α := match best with
-            | some b => P.cast (impurity P pf) - P.cast b.score
-            | none => 0
+          let dec : α := decOf P pf best
           if dec < P.minDec then some (.leaf pred depth)
           else match best with
             | none => none
